@@ -41,11 +41,24 @@ PINNED_CSTOP = '                        if [[ $candidate == $subword* ]]; then\n
 FIXED_CSTOP = '                        if [[ $mode = complete && $candidate == $subword* ]]; then\n                            break 3\n'
 
 
+REPAIRED_RESET = '        candidates=()\n        eval "local literal_transitions_name=literal_transitions_level_${fallback_level}"'
+REPAIRED_LINES = 'while IFS= read -r line; do printf \'%s\\n\' "${line%%$\'\\t\'*}"; done'
+REPAIRED_STOP = ('                if [[ $mode = complete && -v "state_transitions[$literal_id]" && $literal == "$subword"* ]]; then\n'
+                 '                    break 2\n')
+OLD_LINES = 'while read -r f1 _; do echo "$f1"; done'
+
+
 def detect_variant(script):
-    """Which within-word matching loop does this script contain?  'pinned' = the template of /repo when the
-    model was written, 'fixed' = the repair proposed in REPORT-bashsem.md (stop tests only when completing, literal
-    stop test only for literals with a transition).  A script without within-word code has no such loop: both
-    models coincide there ('pinned' is returned).  None = neither (the template changed: broken tie)."""
+    """Which templates does this script come from?  'pinned' = /repo when the model was first written, 'fixed' =
+    pinned + the repaired within-word stop test, 'repaired' = /repo after 7d4f01b/ac67eca/1567cbe (quoted operands, stop
+    test only when completing, candidates = text before the first tab via printf, no last-word escape, arrays reset
+    per level).  None = none of them (a template changed: broken tie)."""
+    if REPAIRED_RESET in script:
+        if OLD_LINES in script or 'if [[ $(($word_index + 1)) == $cword ]]' in script:
+            return None
+        if '_subword () {' in script and REPAIRED_STOP not in script:
+            return None
+        return 'repaired'
     if '_subword () {' not in script:
         return 'pinned'
     has_cmds = 'for candidate in "${decreasing_length[@]}"; do\n                        if [[ $candidate == $subword ]]' in script
